@@ -343,7 +343,7 @@ namespace Pistache::Tcp
                         // pop_front kills buffer - so we cannot continue loop or use buffer
                         // after this point
                         wq.pop_front();
-                        wq.push_front(WriteEntry(std::move(deferred), bufferHolder, flags));
+                        wq.push_front(WriteEntry(std::move(deferred), bufferHolder, fd, flags));
                         reactor()->modifyFd(key(), fd, NotifyOn::Read | NotifyOn::Write,
                                             Polling::Mode::Edge);
                         // nothing more can be written now: go back to the event loop and
